@@ -258,7 +258,8 @@ func (ex *Exec) storeLV(st *State, lv *LV, v T) {
 func (ex *Exec) havocLV(st *State, reach T, lv *LV) {
 	switch lv.kind {
 	case "comp":
-		v := ex.freshOfType("hv", lv.typ, reach, st)
+		// the new value may refer to objects the callee allocated: nothing is assumed about allocatedness
+		v := ex.freshOfType("hv", lv.typ, reach, nil)
 		ex.storeLV(st, lv, v)
 	case "struct":
 		u := lv.typ.Underlying().(*types.Struct)
